@@ -185,6 +185,64 @@ theorem renderPieces_stream (cfg : Config) (env : StyleEnv σ) (buf : List (Segm
   simp only [hn, Bool.false_and, Bool.false_eq_true, if_false]
   exact filterMap_renderSeg_stream cfg env buf hc
 
+/-- Without a colour system (`color_system=None`) `style.render` returns the bare text: the file carries the
+visible characters with no style at all. -/
+theorem renderSeg_stream_plain (cfg : Config) (env : StyleEnv σ) (seg : Segment σ) (hc : cfg.colorNone = true) :
+    pieceStream (renderSeg cfg env seg).toList =
+      if seg.control then [] else seg.text.map (fun c => (c, none)) := by
+  unfold renderSeg
+  by_cases hd : (!cfg.isTerminal && seg.control) = true
+  · rw [if_pos hd]; simp only [Bool.and_eq_true] at hd; simp [hd.2]
+  · simp only [hd, Bool.false_eq_true, if_false]
+    cases hs : seg.style with
+    | none => by_cases hctl : seg.control = true <;> simp [hctl, pieceStream_cons]
+    | some s =>
+      by_cases htr : env.truthy s = true <;> by_cases hctl : seg.control = true <;>
+        simp [htr, hctl, pieceStream_cons, stylePiece, hc]
+
+theorem renderPieces_stream_plain (cfg : Config) (env : StyleEnv σ) (buf : List (Segment σ))
+    (hc : cfg.colorNone = true) :
+    pieceStream (renderPieces cfg env buf) = (segStream env buf).map (fun p => (p.1, none)) := by
+  unfold renderPieces
+  simp only [hc, Bool.not_true, Bool.and_false, Bool.false_eq_true, if_false]
+  induction buf with
+  | nil => rfl
+  | cons seg buf ih =>
+    rw [segStream_cons, List.map_append, ← ih]
+    have h1 := renderSeg_stream_plain cfg env seg hc
+    cases h : renderSeg cfg env seg with
+    | none =>
+      rw [h] at h1
+      simp only [List.filterMap_cons, h]
+      by_cases hctl : seg.control = true
+      · simp [hctl]
+      · simp only [hctl, Bool.false_eq_true, if_false, Option.toList_none, pieceStream_nil] at h1
+        simp only [hctl, Bool.false_eq_true, if_false, List.map_map]
+        rw [show (List.map ((fun p : Char × Option σ => (p.1, (none : Option σ))) ∘ fun c => (c, effStyle env seg.style)) seg.text)
+            = seg.text.map (fun c => (c, none)) from by simp [Function.comp_def], ← h1]
+        rfl
+    | some p =>
+      rw [h] at h1
+      simp only [List.filterMap_cons, h, pieceStream_cons]
+      simp only [Option.toList_some, pieceStream_cons, pieceStream_nil, List.append_nil] at h1
+      rw [h1]
+      by_cases hctl : seg.control = true
+      · simp [hctl]
+      · simp [hctl, Function.comp_def]
+
+/-- Under NO_COLOR (with a colour system) the file carries every visible character in the colourless version of
+its segment's style: `_render_buffer` renders `Segment.remove_color(buffer)`. -/
+theorem renderPieces_stream_noColor (cfg : Config) (env : StyleEnv σ) (buf : List (Segment σ))
+    (hc : cfg.colorNone = false) (hn : cfg.noColor = true) :
+    pieceStream (renderPieces cfg env buf) = segStream env (removeColor env buf) := by
+  unfold renderPieces
+  simp only [hn, hc, Bool.not_false, Bool.and_self, if_true]
+  exact filterMap_renderSeg_stream cfg env _ hc
+
+theorem removeColor_append (env : StyleEnv σ) (a b : List (Segment σ)) :
+    removeColor env (a ++ b) = removeColor env a ++ removeColor env b := by
+  simp [removeColor]
+
 /-- The styled export carries every visible character in the style of its segment. -/
 theorem exportStyledPieces_stream (env : StyleEnv σ) (rec : List (Segment σ)) :
     pieceStream (exportStyledPieces env rec) = segStream env rec := by
@@ -276,6 +334,24 @@ theorem pieceStream_written (cfg : Config) (env : StyleEnv σ) (bufs : List (Lis
       rw [renderPieces_stream cfg env b hc hn] at this
       simp [this]
     · simp [renderPieces_stream cfg env b hc hn]
+
+/-- General form: any additive reading `F` of a buffer that the rendering realises. -/
+theorem pieceStream_written_gen (cfg : Config) (env : StyleEnv σ) (F : List (Segment σ) → List (Char × Option σ))
+    (hF0 : F [] = []) (hFa : ∀ a b, F (a ++ b) = F a ++ F b)
+    (hF : ∀ b, pieceStream (renderPieces cfg env b) = F b) (bufs : List (List (Segment σ))) :
+    pieceStream (written cfg env bufs).flatten = F bufs.flatten := by
+  induction bufs with
+  | nil => simp [hF0]
+  | cons b bs ih =>
+    rw [written_cons, List.flatten_append, pieceStream_append, ih, List.flatten_cons, hFa]
+    congr 1
+    split
+    · rename_i h
+      have h0 : flat (renderPieces cfg env b) = [] := by simpa using h
+      have := stream_of_flat_nil _ h0
+      rw [hF b] at this
+      simp [this]
+    · simp [hF b]
 
 theorem flat_written (cfg : Config) (env : StyleEnv σ) (bufs : List (List (Segment σ))) :
     flat (written cfg env bufs).flatten = flat (renderPieces cfg env bufs.flatten) := by
